@@ -9,7 +9,7 @@ from collections import OrderedDict
 
 from . import ops
 from .ops import PyExc, truth, zbool, to_sbool, values_equal, compare
-from .sym import (SText, Sym, SBool, SInt, SReal, SDate, SStr, SOpaque, SList, SSet,
+from .sym import (SymKeyDict, SText, Sym, SBool, SInt, SReal, SDate, SStr, SOpaque, SList, SSet,
                   SMap, SObj, StrS, slen, str_startswith, str_endswith,
                   Unsupported, is_numeric, num_z, to_real, T)
 from .extract import ModuleRef, RepoClass, RepoFunction
@@ -645,8 +645,20 @@ def _bm(fn):
     return Builtin(fn)
 
 
+def _symkeydict_method(it, d, name):
+    if name == 'keys':
+        return Builtin(lambda it2: [k for k, _ in d.entries])
+    if name == 'values':
+        return Builtin(lambda it2: [v for _, v in d.entries])
+    if name == 'items':
+        return Builtin(lambda it2: [(k, v) for k, v in d.entries])
+    return None
+
+
 def value_method(it, v, name):
     """Bound method `name` of a non-SObj value, or None."""
+    if isinstance(v, SymKeyDict):
+        return _symkeydict_method(it, v, name)
     if isinstance(v, str):
         return _str_method(it, v, name)
     if isinstance(v, SStr):
@@ -744,6 +756,15 @@ def _sstr_method(it, s, name):
                 return SBool(z3.Or(*[f(s.z, ops.strz(it2, x)) for x in a]))
             if ops.is_strlike(a):
                 return SBool(f(s.z, ops.strz(it2, a)))
+        if name in ('strip', 'lstrip', 'rstrip', 'lower', 'upper', 'title', 'capitalize') and not args and not kw:
+            # a function of the string (same argument, same result); stripping never lengthens
+            f = z3.Function('str.%s' % name, StrS, StrS)
+            r = SStr(f(s.z))
+            if not it2.quant_depth:
+                it2.fact(slen(r.z) >= 0)
+                if name in ('strip', 'lstrip', 'rstrip'):
+                    it2.fact(slen(r.z) <= slen(s.z))
+            return r
         if name in ('strip', 'lstrip', 'rstrip', 'lower', 'upper', 'title',
                     'replace', 'format', 'encode', 'decode', 'join',
                     'capitalize', 'expandtabs', 'zfill', 'ljust', 'rjust'):
